@@ -197,7 +197,7 @@ def run(ctx):
                'file-effect trace: sys.addaudithook open/remove events',
                'a memory limit that is refused before any pass over the SEDs and without writing anything, while larger limits serve the same window, yields no chunk size: outside the quantifier')
     ctx.require_events('mono:run', 'file:checked', 'chunk-invariance', 'cube:nearest-slice')
-    ctx.require_regimes('window:empty', 'window:single', 'chunk<n', 'chunk=n', 'chunk=1', 'window:default', 'window:other-unit', 'convolved-dir:pre-existing',
+    ctx.require_regimes('package:model-with-exactly-zero-cells', 'window:empty', 'window:single', 'chunk<n', 'chunk=n', 'chunk=1', 'window:default', 'window:other-unit', 'convolved-dir:pre-existing',
                         'package:sed-subdirectories', 'cube:no-uncertainties', 'cube:named-and-wavelength-filters', 'cube:aperture-dependent', 'cube:filter-other-unit')
     ipk = 0
     sizes = list(range(2, nexh + 1)) + ([6, 9] if ctx.quick else [7, 8, 9])
@@ -208,6 +208,15 @@ def run(ctx):
                 continue
             n_m, n_ap = int(rng.integers(1, 6)), int(rng.integers(1, 4))
             truth = convcheck.make_truth(rng, n_m, n_ap, n_w, names=gen.model_names(rng, n_m))
+            if ipk % 2 == 0 and n_m >= 2:
+                # a model without any emission at some wavelengths (flux and error exactly zero in every aperture), e.g. an embedded
+                # source at short wavelengths, next to models that do emit there
+                mz = int(rng.integers(n_m))
+                zw = rng.random(n_w) < 0.5
+                zw[int(rng.integers(n_w))] = True
+                truth.flux[mz][:, zw] = 0.0
+                truth.err[mz][:, zw] = 0.0
+                ctx.regime('package:model-with-exactly-zero-cells')
             d = ctx.newdir('mo')
             order = list(rng.permutation(n_m))
             lsub = [0, 1, 0, 2][ipk % 4]          # SEDs in seds/<first letters>/ (documented layout for large packages)
